@@ -17,6 +17,7 @@ import importlib
 import numpy as np
 import pandas as pd
 
+from symx import core
 from symx.core import Sym, SymBool, cur, sym_max, sym_min
 from symx.logic import b2i, between, iff, implies, ite, land, lnot, lor, state_is
 from symx.run import Job
@@ -133,6 +134,8 @@ def body_alignment(ctx, features, test_rows, identical):
     calls = []
 
     def histogram(a, bins=10, range=None, **kw):
+        if any(v is not None and v is not False for v in kw.values()):
+            raise core.Inconclusive(f"np.histogram counting model: unsupported arguments {kw!r}")
         vals = list(np.asarray(a, dtype=object))
         calls.append((vals, bins, range))
         return (np.array(counting_histogram(vals, bins, range), dtype=object), None)
@@ -175,11 +178,11 @@ def _beta(prev, d, stat, scale):
     return eps_hat + scale * sd
 
 
-def body_decision(ctx, cls, db, stat, N, default_div):
+def body_decision(ctx, cls, db, stat, N, default_div, rows=4):
     M = importlib.import_module("menelaus.data_drift.histogram_density_method")
     import scipy.stats
 
-    cfg = {"cls": cls, "detect_batch": db, "statistic": stat, "features": 2 if cls == "HDDDM" else 1}
+    cfg = {"cls": cls, "detect_batch": db, "statistic": stat, "features": 2 if cls == "HDDDM" else 1, "rows": rows}
     with DRIVERS["HDM"](ctx, **cfg) as drv:
         js_memo = stubs.Memo()
 
@@ -337,4 +340,9 @@ def jobs(tier):
                     out.append(Job(f"decision-{cls}-db{db}-{stat}-default{int(default_div)}", "checks.c07:body_decision",
                                    {"cls": cls, "db": db, "stat": stat, "N": n, "default_div": default_div},
                                    expect=("drift", "no-drift"), opts={"validate": 1}))
+        # batches with an odd number of rows (no row of the reference may get lost when nothing is split off)
+        for db in (2, 3):
+            out.append(Job(f"decision-{cls}-db{db}-stdev-odd-rows", "checks.c07:body_decision",
+                           {"cls": cls, "db": db, "stat": "stdev", "N": 4 + (1 if db == 3 else 0), "default_div": False, "rows": 5},
+                           expect=("drift", "no-drift"), opts={"validate": 1}))
     return out
